@@ -203,6 +203,10 @@ def record_consistency(tb, files):
         lines = src.split("\n")
         if r[5] <= len(lines) and r[6] != lines[r[5] - 1]:
             problems.append("record for %s line %d shows %r, that line reads %r" % (name, r[5], r[6], lines[r[5] - 1]))
+    # the 4-tuples handed to the error templates: a template frame is shown under the template's name and line
+    for r, shown in zip(tb.records, tb.traceback):
+        if r[4] is not None and r[6] is not None and (shown[0] != r[4] or shown[1] != r[5]):
+            problems.append("frame %s of template %s (line %r) is shown as %r line %r" % (r[2], os.path.basename(str(r[4])), r[5], shown[0], shown[1]))
     if last is not None:
         name, r = last
         if tb.lineno != r[5] or tb.source != files[name]:
